@@ -172,7 +172,52 @@ def _mkcase(kind, firsts, length):
     return lambda choices: {"kind": kind, "firsts": list(firsts), "length": length, "choices": list(choices)}
 
 
+def late_consumer_case(kind="builder", n_samples=55, max_size=60):
+    """A consumer that asked for an output receiver of capacity ``max_size`` > the default and reads only after
+    ``n_samples`` (<= max_size) results have accumulated: nothing may be skipped.  One fixed (directed) execution,
+    lock-step inputs."""
+    viol = []
+    with virtual_loop() as loop:
+        chans = [Broadcast(name=f"in{i}") for i in range(2)]
+        senders = [c.new_sender() for c in chans]
+        engine = build_engine(kind, [c.new_receiver() for c in chans])
+        rx = engine.new_receiver(max_size=max_size)
+        loop.settle()
+        for t in range(n_samples):
+            for sd in senders:
+                F.push(sd, Sample(F.ts(t), Quantity(float(t))))
+            loop.settle()
+        got = []
+        while len(rx):
+            s = rx.consume()
+            got.append(int((s.timestamp - F.T0).total_seconds()))
+        if got != list(range(n_samples)):
+            viol.append(("no_output_skipped_within_the_receiver_capacity_asked_for",
+                         {"max_size": max_size, "results_produced": n_samples, "first_read": got[:3], "read": len(got)}))
+    return viol
+
+
+def directed_shard(_args) -> Acc:
+    from ..core import Acc, Violation
+
+    acc = Acc()
+    for kind in ("builder", "api"):
+        viol = late_consumer_case(kind)
+        acc.evaluations += 1
+        acc.traces += 1
+        acc.transitions += 55
+        acc.nontrivial += 1
+        acc.clauses["no_output_skipped_within_the_receiver_capacity_asked_for"] += 1
+        acc.state(repr(("late-consumer", kind)))
+        acc.outcome("late-consumer")
+        for clause, detail in viol:
+            acc.violation(Violation(clause, {"driver": "late-consumer", "kind": kind}, detail))
+    return acc
+
+
 def shard(args) -> Acc:
+    if args[0] == "directed":
+        return directed_shard(args)
     kind, firsts, length, bound = args
     sc = make_scenario(kind, firsts, length)
     return explore(sc, bound, _mkcase(kind, firsts, length), workers=1)
@@ -200,6 +245,7 @@ def run(tier: str, seed: int, workers: int):
             if isinstance(length, tuple) and len(set(firsts)) < 3:
                 continue  # the ("end", k) plans are about three distinct first timestamps
             shards.append((kind, firsts, length, bound))
+    shards.append(("directed",))
     determinism_selfcheck(make_scenario("builder", (0, 1), 3))
     if seed:
         import random
@@ -211,7 +257,8 @@ def run(tier: str, seed: int, workers: int):
         "L = 2-4 samples per stream (or all streams ending one step after the latest start, for three distinct first timestamps); every interleaving of per-stream deliveries (order kept) and of the consumer starting the "
         "engine, injected at quiescence; delivery between two loop iterations as deviation (bound per plan); engines built with "
         "FormulaBuilder, with the composition API (leaf engines as separate tasks) and as FormulaEngine3Phase over three phase "
-        "engines; non-trivial = streams start on different timestamps or the consumer starts late",
+        "engines; non-trivial = streams start on different timestamps or the consumer starts late; plus one directed execution per builder "
+        "kind: an output receiver asked for with max_size=60 that is read only after 55 results have accumulated",
         "assumptions": [
             "receiver backlog never exceeds the default capacity (L <= 4)",
             "at the end of an execution every common timestamp must have been emitted (the loop is quiescent, nothing is in flight)",
@@ -223,5 +270,7 @@ def run(tier: str, seed: int, workers: int):
 
 
 def replay(case: dict):
+    if case.get("driver") == "late-consumer":
+        return late_consumer_case(case["kind"])
     sc = make_scenario(case["kind"], tuple(case["firsts"]), case["length"])
     return replay_choices(sc, case["choices"], case.get("labels")).violations
